@@ -138,7 +138,7 @@ def main():
             f.write(newick + "\n")
     if distmat_out:
         with open(distmat_out, "w") as f:
-            f.write(f"{n}\n" + "".join(f"{i} " + " ".join("0.0" if i == j else "1.0" for j in range(n)) + "\n" for i in range(n)))
+            f.write(f"{n}\n" + "".join(f"{i} " + " ".join(f"{abs(i - j):.1f}" for j in range(n)) + "\n" for i in range(n)))   # d(i,j) = |i-j|
     if behaviour == "sigkill":
         die()
     emit(event="exit", code=0, rows=rows, order=[r[0] for r in rows], trees=trees)
